@@ -1,4 +1,8 @@
 //! `loom::sync::atomic` subset: std atomics behind a scheduling point.
+//!
+//! Every atomic carries its creation index within the current execution (0 =
+//! created outside a tracing execution) so that `--atomics` traces can name
+//! objects by construction order.
 
 use crate::rt;
 use std::fmt;
@@ -8,6 +12,9 @@ pub use std::sync::atomic::Ordering;
 pub fn fence(order: Ordering) {
   rt::sched_point();
   std::sync::atomic::fence(order);
+  if rt::tracing() {
+    rt::log_action("fence", "-", rt::ord_token(order), "-", "-", "-");
+  }
 }
 
 #[inline]
@@ -15,43 +22,104 @@ pub fn compiler_fence(order: Ordering) {
   std::sync::atomic::compiler_fence(order);
 }
 
+trait Tok {
+  fn tok(&self) -> String;
+}
+macro_rules! tok_int {
+  ($($t:ty),*) => { $( impl Tok for $t { fn tok(&self) -> String { self.to_string() } } )* };
+}
+tok_int!(u8, u16, u32, u64, usize, i8, i16, i32, i64, isize);
+impl Tok for bool {
+  fn tok(&self) -> String {
+    if *self { "1".into() } else { "0".into() }
+  }
+}
+impl<T> Tok for *mut T {
+  fn tok(&self) -> String {
+    rt::ptr_token(*self as usize)
+  }
+}
+
+#[cold]
+fn log(kind: &str, id: u32, ty: &str, ord: String, old: String, new: String, ok: &str) {
+  let obj = if id == 0 { format!("a?:{}", ty) } else { format!("a{}:{}", id, ty) };
+  rt::log_action(kind, &obj, &ord, &old, &new, ok);
+}
+
+fn o1(o: Ordering) -> String {
+  rt::ord_token(o).to_string()
+}
+fn o2(s: Ordering, f: Ordering) -> String {
+  format!("{}/{}", rt::ord_token(s), rt::ord_token(f))
+}
+
 macro_rules! common {
-  ($name:ident, $std:ty, $t:ty) => {
-    #[repr(transparent)]
+  ($name:ident, $std:ty, $t:ty, $tyname:expr) => {
     pub struct $name {
       v: $std,
+      id: u32,
     }
 
     impl $name {
       #[inline]
-      pub const fn new(v: $t) -> Self {
-        Self { v: <$std>::new(v) }
+      #[track_caller]
+      pub fn new(v: $t) -> Self {
+        let id = if rt::tracing() { rt::new_obj(false, $tyname, &Tok::tok(&v), std::panic::Location::caller()) } else { 0 };
+        Self { v: <$std>::new(v), id }
       }
       #[inline]
       pub fn load(&self, o: Ordering) -> $t {
         rt::sched_point();
-        self.v.load(o)
+        let r = self.v.load(o);
+        if rt::tracing() {
+          log("load", self.id, $tyname, o1(o), r.tok(), r.tok(), "-");
+        }
+        r
       }
       #[inline]
       pub fn store(&self, val: $t, o: Ordering) {
         rt::sched_point();
-        self.v.store(val, o)
+        if rt::tracing() {
+          let old = self.v.load(Ordering::Relaxed);
+          self.v.store(val, o);
+          log("store", self.id, $tyname, o1(o), old.tok(), val.tok(), "-");
+        } else {
+          self.v.store(val, o)
+        }
       }
       #[inline]
       pub fn swap(&self, val: $t, o: Ordering) -> $t {
         rt::sched_point();
-        self.v.swap(val, o)
+        let r = self.v.swap(val, o);
+        if rt::tracing() {
+          log("swap", self.id, $tyname, o1(o), r.tok(), val.tok(), "-");
+        }
+        r
       }
       #[inline]
       pub fn compare_exchange(&self, cur: $t, new: $t, s: Ordering, f: Ordering) -> Result<$t, $t> {
         rt::sched_point();
-        self.v.compare_exchange(cur, new, s, f)
+        let r = self.v.compare_exchange(cur, new, s, f);
+        if rt::tracing() {
+          match r {
+            Ok(old) => log("cas", self.id, $tyname, o2(s, f), old.tok(), new.tok(), "1"),
+            Err(old) => log("cas", self.id, $tyname, o2(s, f), old.tok(), old.tok(), "0"),
+          }
+        }
+        r
       }
       /// Never fails spuriously in this shim (documented deviation).
       #[inline]
       pub fn compare_exchange_weak(&self, cur: $t, new: $t, s: Ordering, f: Ordering) -> Result<$t, $t> {
         rt::sched_point();
-        self.v.compare_exchange(cur, new, s, f)
+        let r = self.v.compare_exchange(cur, new, s, f);
+        if rt::tracing() {
+          match r {
+            Ok(old) => log("casw", self.id, $tyname, o2(s, f), old.tok(), new.tok(), "1"),
+            Err(old) => log("casw", self.id, $tyname, o2(s, f), old.tok(), old.tok(), "0"),
+          }
+        }
+        r
       }
       /// One scheduling point, then the whole read-modify-write atomically.
       #[inline]
@@ -60,7 +128,15 @@ macro_rules! common {
         F: FnMut($t) -> Option<$t>,
       {
         rt::sched_point();
-        self.v.fetch_update(s, f, func)
+        let r = self.v.fetch_update(s, f, func);
+        if rt::tracing() {
+          let now = self.v.load(Ordering::Relaxed);
+          match r {
+            Ok(old) => log("fupd", self.id, $tyname, o2(s, f), old.tok(), now.tok(), "1"),
+            Err(old) => log("fupd", self.id, $tyname, o2(s, f), old.tok(), old.tok(), "0"),
+          }
+        }
+        r
       }
       #[inline]
       pub fn get_mut(&mut self) -> &mut $t {
@@ -97,6 +173,7 @@ macro_rules! common {
     }
 
     impl From<$t> for $name {
+      #[track_caller]
       fn from(v: $t) -> Self {
         Self::new(v)
       }
@@ -104,137 +181,127 @@ macro_rules! common {
   };
 }
 
+macro_rules! rmw {
+  ($name:ident, $t:ty, $tyname:expr, $( ($m:ident, $kind:expr) ),*) => {
+    impl $name {
+      $(
+        #[inline]
+        pub fn $m(&self, val: $t, o: Ordering) -> $t {
+          rt::sched_point();
+          let r = self.v.$m(val, o);
+          if rt::tracing() {
+            let now = self.v.load(Ordering::Relaxed);
+            log($kind, self.id, $tyname, o1(o), r.tok(), now.tok(), "-");
+          }
+          r
+        }
+      )*
+    }
+  };
+}
+
 macro_rules! int_atomic {
-  ($name:ident, $std:ty, $t:ty) => {
-    common!($name, $std, $t);
+  ($name:ident, $std:ty, $t:ty, $tyname:expr) => {
+    common!($name, $std, $t, $tyname);
 
     impl Default for $name {
+      #[track_caller]
       fn default() -> Self {
         Self::new(0)
       }
     }
 
-    impl $name {
-      #[inline]
-      pub fn fetch_add(&self, val: $t, o: Ordering) -> $t {
-        rt::sched_point();
-        self.v.fetch_add(val, o)
-      }
-      #[inline]
-      pub fn fetch_sub(&self, val: $t, o: Ordering) -> $t {
-        rt::sched_point();
-        self.v.fetch_sub(val, o)
-      }
-      #[inline]
-      pub fn fetch_and(&self, val: $t, o: Ordering) -> $t {
-        rt::sched_point();
-        self.v.fetch_and(val, o)
-      }
-      #[inline]
-      pub fn fetch_nand(&self, val: $t, o: Ordering) -> $t {
-        rt::sched_point();
-        self.v.fetch_nand(val, o)
-      }
-      #[inline]
-      pub fn fetch_or(&self, val: $t, o: Ordering) -> $t {
-        rt::sched_point();
-        self.v.fetch_or(val, o)
-      }
-      #[inline]
-      pub fn fetch_xor(&self, val: $t, o: Ordering) -> $t {
-        rt::sched_point();
-        self.v.fetch_xor(val, o)
-      }
-      #[inline]
-      pub fn fetch_max(&self, val: $t, o: Ordering) -> $t {
-        rt::sched_point();
-        self.v.fetch_max(val, o)
-      }
-      #[inline]
-      pub fn fetch_min(&self, val: $t, o: Ordering) -> $t {
-        rt::sched_point();
-        self.v.fetch_min(val, o)
-      }
-    }
+    rmw!($name, $t, $tyname, (fetch_add, "fadd"), (fetch_sub, "fsub"), (fetch_and, "fand"), (fetch_nand, "fnand"),
+      (fetch_or, "for"), (fetch_xor, "fxor"), (fetch_max, "fmax"), (fetch_min, "fmin"));
   };
 }
 
-int_atomic!(AtomicU8, std::sync::atomic::AtomicU8, u8);
-int_atomic!(AtomicU16, std::sync::atomic::AtomicU16, u16);
-int_atomic!(AtomicU32, std::sync::atomic::AtomicU32, u32);
-int_atomic!(AtomicU64, std::sync::atomic::AtomicU64, u64);
-int_atomic!(AtomicUsize, std::sync::atomic::AtomicUsize, usize);
-int_atomic!(AtomicI8, std::sync::atomic::AtomicI8, i8);
-int_atomic!(AtomicI16, std::sync::atomic::AtomicI16, i16);
-int_atomic!(AtomicI32, std::sync::atomic::AtomicI32, i32);
-int_atomic!(AtomicI64, std::sync::atomic::AtomicI64, i64);
-int_atomic!(AtomicIsize, std::sync::atomic::AtomicIsize, isize);
+int_atomic!(AtomicU8, std::sync::atomic::AtomicU8, u8, "u8");
+int_atomic!(AtomicU16, std::sync::atomic::AtomicU16, u16, "u16");
+int_atomic!(AtomicU32, std::sync::atomic::AtomicU32, u32, "u32");
+int_atomic!(AtomicU64, std::sync::atomic::AtomicU64, u64, "u64");
+int_atomic!(AtomicUsize, std::sync::atomic::AtomicUsize, usize, "usize");
+int_atomic!(AtomicI8, std::sync::atomic::AtomicI8, i8, "i8");
+int_atomic!(AtomicI16, std::sync::atomic::AtomicI16, i16, "i16");
+int_atomic!(AtomicI32, std::sync::atomic::AtomicI32, i32, "i32");
+int_atomic!(AtomicI64, std::sync::atomic::AtomicI64, i64, "i64");
+int_atomic!(AtomicIsize, std::sync::atomic::AtomicIsize, isize, "isize");
 
-common!(AtomicBool, std::sync::atomic::AtomicBool, bool);
+common!(AtomicBool, std::sync::atomic::AtomicBool, bool, "bool");
 
 impl Default for AtomicBool {
+  #[track_caller]
   fn default() -> Self {
     Self::new(false)
   }
 }
 
-impl AtomicBool {
-  #[inline]
-  pub fn fetch_and(&self, val: bool, o: Ordering) -> bool {
-    rt::sched_point();
-    self.v.fetch_and(val, o)
-  }
-  #[inline]
-  pub fn fetch_nand(&self, val: bool, o: Ordering) -> bool {
-    rt::sched_point();
-    self.v.fetch_nand(val, o)
-  }
-  #[inline]
-  pub fn fetch_or(&self, val: bool, o: Ordering) -> bool {
-    rt::sched_point();
-    self.v.fetch_or(val, o)
-  }
-  #[inline]
-  pub fn fetch_xor(&self, val: bool, o: Ordering) -> bool {
-    rt::sched_point();
-    self.v.fetch_xor(val, o)
-  }
-}
+rmw!(AtomicBool, bool, "bool", (fetch_and, "fand"), (fetch_nand, "fnand"), (fetch_or, "for"), (fetch_xor, "fxor"));
 
-#[repr(transparent)]
 pub struct AtomicPtr<T> {
   v: std::sync::atomic::AtomicPtr<T>,
+  id: u32,
 }
 
 impl<T> AtomicPtr<T> {
   #[inline]
-  pub const fn new(p: *mut T) -> Self {
-    Self { v: std::sync::atomic::AtomicPtr::new(p) }
+  #[track_caller]
+  pub fn new(p: *mut T) -> Self {
+    let id = if rt::tracing() { rt::new_obj(false, "ptr", &p.tok(), std::panic::Location::caller()) } else { 0 };
+    Self { v: std::sync::atomic::AtomicPtr::new(p), id }
   }
   #[inline]
   pub fn load(&self, o: Ordering) -> *mut T {
     rt::sched_point();
-    self.v.load(o)
+    let r = self.v.load(o);
+    if rt::tracing() {
+      log("load", self.id, "ptr", o1(o), r.tok(), r.tok(), "-");
+    }
+    r
   }
   #[inline]
   pub fn store(&self, p: *mut T, o: Ordering) {
     rt::sched_point();
-    self.v.store(p, o)
+    if rt::tracing() {
+      let old = self.v.load(Ordering::Relaxed);
+      self.v.store(p, o);
+      log("store", self.id, "ptr", o1(o), old.tok(), p.tok(), "-");
+    } else {
+      self.v.store(p, o)
+    }
   }
   #[inline]
   pub fn swap(&self, p: *mut T, o: Ordering) -> *mut T {
     rt::sched_point();
-    self.v.swap(p, o)
+    let r = self.v.swap(p, o);
+    if rt::tracing() {
+      log("swap", self.id, "ptr", o1(o), r.tok(), p.tok(), "-");
+    }
+    r
   }
   #[inline]
   pub fn compare_exchange(&self, cur: *mut T, new: *mut T, s: Ordering, f: Ordering) -> Result<*mut T, *mut T> {
     rt::sched_point();
-    self.v.compare_exchange(cur, new, s, f)
+    let r = self.v.compare_exchange(cur, new, s, f);
+    if rt::tracing() {
+      match r {
+        Ok(old) => log("cas", self.id, "ptr", o2(s, f), old.tok(), new.tok(), "1"),
+        Err(old) => log("cas", self.id, "ptr", o2(s, f), old.tok(), old.tok(), "0"),
+      }
+    }
+    r
   }
   #[inline]
   pub fn compare_exchange_weak(&self, cur: *mut T, new: *mut T, s: Ordering, f: Ordering) -> Result<*mut T, *mut T> {
     rt::sched_point();
-    self.v.compare_exchange(cur, new, s, f)
+    let r = self.v.compare_exchange(cur, new, s, f);
+    if rt::tracing() {
+      match r {
+        Ok(old) => log("casw", self.id, "ptr", o2(s, f), old.tok(), new.tok(), "1"),
+        Err(old) => log("casw", self.id, "ptr", o2(s, f), old.tok(), old.tok(), "0"),
+      }
+    }
+    r
   }
   #[inline]
   pub fn fetch_update<F>(&self, s: Ordering, f: Ordering, func: F) -> Result<*mut T, *mut T>
@@ -242,7 +309,15 @@ impl<T> AtomicPtr<T> {
     F: FnMut(*mut T) -> Option<*mut T>,
   {
     rt::sched_point();
-    self.v.fetch_update(s, f, func)
+    let r = self.v.fetch_update(s, f, func);
+    if rt::tracing() {
+      let now = self.v.load(Ordering::Relaxed);
+      match r {
+        Ok(old) => log("fupd", self.id, "ptr", o2(s, f), old.tok(), now.tok(), "1"),
+        Err(old) => log("fupd", self.id, "ptr", o2(s, f), old.tok(), old.tok(), "0"),
+      }
+    }
+    r
   }
   #[inline]
   pub fn get_mut(&mut self) -> &mut *mut T {
@@ -265,6 +340,7 @@ impl<T> AtomicPtr<T> {
 }
 
 impl<T> Default for AtomicPtr<T> {
+  #[track_caller]
   fn default() -> Self {
     Self::new(std::ptr::null_mut())
   }
@@ -278,6 +354,7 @@ impl<T> fmt::Debug for AtomicPtr<T> {
 }
 
 impl<T> From<*mut T> for AtomicPtr<T> {
+  #[track_caller]
   fn from(p: *mut T) -> Self {
     Self::new(p)
   }
